@@ -458,6 +458,8 @@ func (p *parser) parseFuncDefSignature() *FuncDefStmt {
 		fd.ReturnType = p.parseType()
 		if fd.ReturnType == nil {
 			p.appendErrorForToken("invalid return type", tok)
+		} else {
+			fd.ReturnType = fixedType(fd.ReturnType)
 		}
 	}
 	for !p.isAtEOL() && p.cur.TokenType() != lexer.DOT3 {
@@ -885,7 +887,7 @@ func (p *parser) parseForStatement() Node {
 		forNode.Range = n
 	case ARRAY:
 		if forNode.LoopVar != nil {
-			forNode.LoopVar.T = t.infer().Sub
+			forNode.LoopVar.T = fixedType(t.infer().Sub)
 		}
 		forNode.Range = n
 	case NUM:
